@@ -126,7 +126,8 @@ def agentOfJson (j : Json) : Except String (AgentFn × List VarBind × BulkPolic
         | .error _ => none
       let cut := (p.getObjValAs? Nat "cut").toOption.getD 0
       let stop := (p.getObjValAs? Bool "stop").toOption.getD true
-      pure { rows := rows, cut := cut, stopAfterEomRow := stop }
+      let deep := (p.getObjValAs? Bool "deep").toOption.getD false
+      pure { rows := rows, cut := cut, stopAfterEomRow := stop, deep := deep }
     | .error _ => pure {}
   let db ← match j.getObjVal? "db" with
     | .ok d => vbsOfJson d
@@ -177,7 +178,14 @@ def walkRun (j : Json) : Except String Json := do
     | .error _ => pure x0
   let r ← match kind with
     | "getnext" => pure (Walk.walkGetnext x roots lenient fuel)
-    | "bulk" => pure (Walk.walkBulk x (← getNat j "size") roots fuel)
+    | "bulk" => do
+      -- the wire trace: every fetch of the walk loop followed by the completion requests of the fetcher
+      let size ← getNat j "size"
+      let r := Walk.walkBulk x size roots fuel
+      let ev := r.events.flatMap fun e => match e with
+        | .req oids => e :: (Walk.bulkFetcherExtraReqs x size oids).map Walk.Event.req
+        | _ => [e]
+      pure { r with events := ev }
     | k => throw s!"bad walk kind {k}"
   pure (Json.mkObj [("events", toJson (r.events.map eventToJson)), ("outcome", outcomeToJson r.outcome)])
 
